@@ -1,6 +1,7 @@
 import WindVerif.Proofs.Sorted
 import WindVerif.Proofs.SortedCopy
 import WindVerif.Proofs.SortedMixins
+import WindVerif.Proofs.SortedPartial
 /-!
 # C09 — SortedSet / SortedMap stay sorted, duplicate-free and equivalent to set / dict
 
@@ -337,5 +338,87 @@ example : setLe [1, 3] [3, 4, 1] = true ∧ setEq [1, 3] [3, 1] = true ∧ setIs
     setIor [1, 3, 4] [4, 9, 3] = [1, 3, 4, 9] ∧ setIsub [1, 3, 4] [4, 9, 3] = [1] ∧ setIxor [1, 3, 4] [4, 9, 3] = [1, 9] := by decide
 example : setIand [1, 3, 4] [4, 9, 3] = setAnd [1, 3, 4] [4, 9, 3] ∧ setIxor [1, 3, 4] [4, 9, 3] = setXor [1, 3, 4] [4, 9, 3] :=
   ⟨setIand_eq _ _ (by simp [Strict]), setIxor_eq _ _ (by simp [Strict]) (by decide)⟩
+
+/-! ### bulk operations fed by a source that fails in the middle (proofs in `Proofs/SortedPartial.lean`)
+
+`setIorPartial s xs k` / `mapUpdatePartial m ps k`: the state when the source of `s |= xs` / `m.update(ps)` raises after
+having delivered `k` items — the inherited loops have called `add` / `__setitem__` for exactly these, one at a time. -/
+
+theorem setIorPartial_zero (s xs : List Int) : setIorPartial s xs 0 = s := by
+  first | exact WindVerif.Sorted.setIorPartial_zero .. | (apply WindVerif.Sorted.setIorPartial_zero <;> assumption)
+
+/-- one at a time: the state after `k+1` items is the state after `k` items with `xs[k]` added -/
+theorem setIorPartial_succ (s xs : List Int) (k : Nat) (hk : k < xs.length) :
+    setIorPartial s xs (k + 1) = setAdd (setIorPartial s xs k) xs[k] := by
+  first | exact WindVerif.Sorted.setIorPartial_succ .. | (apply WindVerif.Sorted.setIorPartial_succ <;> assumption)
+
+/-- a source that does not fail: the whole `__ior__` -/
+theorem setIorPartial_all (s xs : List Int) : setIorPartial s xs xs.length = setIor s xs := by
+  first | exact WindVerif.Sorted.setIorPartial_all .. | (apply WindVerif.Sorted.setIorPartial_all <;> assumption)
+
+/-- at every moment (every `k`; for `k ≥ len(xs)` the prefix is the whole source) the values are strictly ascending —
+sorted and duplicate-free — and are exactly the old values plus the delivered prefix -/
+theorem ior_prefix (s xs : List Int) (k : Nat) (h : Strict s) :
+    Strict (setIorPartial s xs k) ∧ ∀ y, y ∈ setIorPartial s xs k ↔ (y ∈ s ∨ y ∈ xs.take k) := by
+  first | exact WindVerif.Sorted.ior_prefix .. | (apply WindVerif.Sorted.ior_prefix <;> assumption)
+
+theorem ior_prefix_nodup (s xs : List Int) (k : Nat) (h : Strict s) : (setIorPartial s xs k).Nodup := by
+  first | exact WindVerif.Sorted.ior_prefix_nodup .. | (apply WindVerif.Sorted.ior_prefix_nodup <;> assumption)
+
+/-- a delivered prefix of members changes nothing (what the harness feeds before the source raises) -/
+theorem ior_existing_noop (s xs : List Int) (k : Nat) (h : Strict s) (hm : ∀ y ∈ xs.take k, y ∈ s) :
+    setIorPartial s xs k = s := by
+  first | exact WindVerif.Sorted.ior_existing_noop .. | (apply WindVerif.Sorted.ior_existing_noop <;> assumption)
+
+theorem mapUpdatePartial_zero (m : SMap) (ps : List (Int × Nat)) : mapUpdatePartial m ps 0 = m := by
+  first | exact WindVerif.Sorted.mapUpdatePartial_zero .. | (apply WindVerif.Sorted.mapUpdatePartial_zero <;> assumption)
+
+/-- one at a time: the state after `k+1` pairs is the state after `k` pairs with `ps[k]` stored -/
+theorem mapUpdatePartial_succ (m : SMap) (ps : List (Int × Nat)) (k : Nat) (hk : k < ps.length) :
+    mapUpdatePartial m ps (k + 1) = mapSet (mapUpdatePartial m ps k) ps[k].1 ps[k].2 := by
+  first | exact WindVerif.Sorted.mapUpdatePartial_succ .. | (apply WindVerif.Sorted.mapUpdatePartial_succ <;> assumption)
+
+theorem mapUpdatePartial_all (m : SMap) (ps : List (Int × Nat)) : mapUpdatePartial m ps ps.length = mapUpdate m ps := by
+  first | exact WindVerif.Sorted.mapUpdatePartial_all .. | (apply WindVerif.Sorted.mapUpdatePartial_all <;> assumption)
+
+/-- at every moment the state is well formed (keys strictly ascending, one value per key) and stands for the old content
+overridden by the delivered pairs in order (a later pair for the same key wins) -/
+theorem update_prefix (m : SMap) (ps : List (Int × Nat)) (k : Nat) (h : MapWf m) :
+    MapWf (mapUpdatePartial m ps k) ∧
+    ∀ key, mapLookup (mapUpdatePartial m ps k) key =
+      (match (ps.take k).reverse.lookup key with | some v => some v | none => mapLookup m key) := by
+  first | exact WindVerif.Sorted.update_prefix .. | (apply WindVerif.Sorted.update_prefix <;> assumption)
+
+/-- delivered pairs whose keys are present with exactly the stored values change nothing -/
+theorem update_existing_noop (m : SMap) (ps : List (Int × Nat)) (k : Nat) (h : MapWf m)
+    (hm : ∀ p ∈ ps.take k, mapLookup m p.1 = some p.2) : mapUpdatePartial m ps k = m := by
+  first | exact WindVerif.Sorted.update_existing_noop .. | (apply WindVerif.Sorted.update_existing_noop <;> assumption)
+
+/-- the seeded variant "extend the list with everything, then sort and de-duplicate" (`iorBulkPartial`: the values are
+appended as they arrive, the failure of the source comes before the sort): values `[1,5,9]`, source `9,7,3,5` and then the
+failure leave `[1,5,9,9,7,3,5]`, neither sorted nor duplicate-free, where the loop of `add` calls leaves `[1,3,5,7,9]` -/
+theorem ior_bulk_wrong :
+    Strict [1, 5, 9] ∧
+    iorBulkPartial [1, 5, 9] [9, 7, 3, 5] 4 = [1, 5, 9, 9, 7, 3, 5] ∧
+    ¬ Strict (iorBulkPartial [1, 5, 9] [9, 7, 3, 5] 4) ∧
+    ¬ (iorBulkPartial [1, 5, 9] [9, 7, 3, 5] 4).Nodup ∧
+    setIorPartial [1, 5, 9] [9, 7, 3, 5] 4 = [1, 3, 5, 7, 9] := by
+  first | exact WindVerif.Sorted.ior_bulk_wrong .. | (apply WindVerif.Sorted.ior_bulk_wrong <;> assumption)
+
+/-- already one delivered member shows the difference -/
+theorem ior_bulk_wrong_member :
+    iorBulkPartial [1, 5, 9] [5, 1] 1 = [1, 5, 9, 5] ∧ ¬ Strict (iorBulkPartial [1, 5, 9] [5, 1] 1) ∧
+    setIorPartial [1, 5, 9] [5, 1] 1 = [1, 5, 9] := by
+  first | exact WindVerif.Sorted.ior_bulk_wrong_member .. | (apply WindVerif.Sorted.ior_bulk_wrong_member <;> assumption)
+
+/-- non-vacuity: a set and a source whose first two items are members (the third is not), a map and a source whose first
+two pairs are stored as they are (the third is not); the states after 2 and after 3 items -/
+example : Strict [1, 5, 9] ∧ (∀ y ∈ [5, 1, 7].take 2, y ∈ [1, 5, 9]) ∧
+    setIorPartial [1, 5, 9] [5, 1, 7] 2 = [1, 5, 9] ∧ setIorPartial [1, 5, 9] [5, 1, 7] 3 = [1, 5, 7, 9] := by
+  refine ⟨by simp [Strict], by decide, by decide, by decide⟩
+example : MapWf ⟨[1, 2, 5], [7, 6, 7]⟩ ∧ (∀ p ∈ [(5, 7), (1, 7), (2, 8)].take 2, mapLookup ⟨[1, 2, 5], [7, 6, 7]⟩ p.1 = some p.2) ∧
+    mapItems (mapUpdatePartial ⟨[1, 2, 5], [7, 6, 7]⟩ [(5, 7), (1, 7), (2, 8)] 2) = [(1, 7), (2, 6), (5, 7)] ∧
+    mapItems (mapUpdatePartial ⟨[1, 2, 5], [7, 6, 7]⟩ [(5, 7), (1, 7), (2, 8), (3, 0)] 4) = [(1, 7), (2, 8), (3, 0), (5, 7)] := by
+  refine ⟨by simp [MapWf, Strict], by decide, by decide, by decide⟩
 
 end WindVerif.C09
